@@ -133,6 +133,16 @@ Proof. induction fuel as [|f IH]; intros o s; cbn [pkt_opts]; [exact I|]. e2; tr
 Lemma eof2_readIDB F s : eof2 (readIDB F s).
 Proof. unfold readIDB. e2; try apply eof2_idb_opts. Qed.
 
+Lemma eof2_put_stats id st s : eof2 (put_stats id st s).
+Proof. exact I. Qed.
+Lemma eof2_isb_opts : forall fuel id i st s, eof2 (isb_opts fuel id i st s).
+Proof.
+  induction fuel as [|f IH]; intros id i st s; cbn [isb_opts]; [exact I|].
+  e2; try apply eof2_readOption; try apply eof2_put_stats; try apply IH.
+Qed.
+Lemma eof2_readISB F s : eof2 (readISB F s).
+Proof. unfold readISB. e2; try apply eof2_put_stats; try apply eof2_isb_opts. Qed.
+
 Lemma eof2_check_caplen snap s : eof2 (check_caplen snap s).
 Proof. unfold check_caplen. e2. Qed.
 
